@@ -119,7 +119,7 @@ def binApply (name : String) (s x y : St) : Res :=
     | .null, _ => true | .arr _, .arr _ => true | .obj _, .obj _ => true | _, _ => false
   if name == "_add" && isUnit x.v && sameKind x.v y.v then .one { v := y.v, id := y.id, ctx := x.ctx }
   else if name == "_add" && isUnit y.v && sameKind y.v x.v then .one { v := x.v, id := x.id, ctx := x.ctx }
-  else nativeRes x name (callNative name s.v [x.v, y.v])
+  else nativeRes x name (callNative name s.v [x.v, y.v]) [s.v, x.v, y.v]
 
 theorem evalBinNative_eq (n : Nat) (cfg : Cfg) (env : Env) (name : String) (l r : Query) (s : St) :
     evalBinNative (n+1) cfg env name l r s =
